@@ -123,13 +123,13 @@ class DefinitionsMapper:
         Yields:
             An iterator of class instances.
         """
+        style = config.setdefault("style", "document")
         attrs = [
             cls.build_attr(key, str(DataType.STRING), native=True, default=config[key])
             for key in sorted(config.keys(), key=len)
             if config[key]
         ]
 
-        style = config.get("style", "document")
         name = f"{name}_{binding_operation.name}"
         namespace = cls.operation_namespace(config)
         operation_messages = cls.map_binding_operation_messages(
